@@ -233,7 +233,9 @@ func genCase(rt *rapid.T) *Case {
 		}
 		b.stray(rapid.SampledFrom(loc).Draw(rt, "strayLoc"))
 	}
-	return b.done()
+	c := b.done()
+	c.Reuse = rapid.IntRange(0, 3).Draw(rt, "reuseStoreValue") == 0
+	return c
 }
 
 func TestC13_Random(t *testing.T) {
